@@ -39,12 +39,14 @@ import (
 //
 // ops:
 //   o.c29.run <ranges ,> <vertical 0|1> <deleteDelay s> <blocks ;> <crash1> <crash2> <cycles: 123 | 13> [<fault>]
-//       fault = - | t:<k> | d:<n> | b:<bytes>:<n>   selective / transient object store failures, see bucketFault: the call fails,
+//       fault = - | t:<k> | d:<n> | b:<bytes>:<n> | g:<e|h|n>:<k> | o:<e|h|n>:<j>:<n>   selective / transient object store failures, see bucketFault: the call fails,
 //               every other call keeps working (unlike a crash); Compact() returning an error is then expected, losing data is not
 //       block = min:max:seriesmask:tombstones      (series a="1","2","3" selected by the mask bits; samples at
 //                                                   min, min+step, …, max-1 with value 10·t+series — identical in every block)
 //       The REAL compact.BucketCompactor (planner with both filters, Syncer + GarbageCollect, BlocksCleaner, real
 //       tsdb.LeveledCompactor) runs on an in-memory bucket holding these real TSDB blocks:
+//         every cycle is one compactMainFn of cmd/thanos/compact.go: Compact(), SyncMetas(), cleanPartialMarked()
+//         (BestEffortCleanAbortedPartialUploads); the source blocks' objects are 72 h old
 //         cycle 1  Compact(); the bucket "crashes" after its <crash1>-th mutating operation (0 = never): every later
 //                  bucket call fails; then a fresh compactor (restart) runs Compact() to the end, crashing once more
 //                  after <crash2> further mutating operations if crash2 > 0 (and is restarted again);
@@ -54,7 +56,8 @@ import (
 //       MetaFetcher[IgnoreDeletionMarkFilter(deleteDelay/2), DefaultDeduplicateFilter], block.Download, tsdb.OpenBlock.
 //       -> n=<mutating ops of cycle 1 up to its end or crash> <status per stage> <events>
 //          events (`,`-joined) = the bucket's meta-level history: s (source block), +id:level:parents:sources (meta.json
-//          of a compacted block uploaded), m:id (deletion mark uploaded), -id (meta.json deleted), t:d (marks made d s older)
+//          of a compacted block uploaded), m:id (deletion mark uploaded), -id (meta.json deleted), t:d (marks made d s older),
+//          r (a read fault was injected)
 //   cp.valid <deleteDelay> <events>      -> valid | invalid@k:<event>
 //       the model side replays the events as transitions of Model/CompactProto.lean (compact / markSource|gc / clean /
 //       tick); the implementation side answers `valid` — i.e. the claim "the real history is a history of the model" —
@@ -62,11 +65,13 @@ import (
 //
 // oracle classes:
 //   sample-lost        an original sample is not served (at a crash point, after a restart, or after a cycle)
+//   sample-lost-after-notfound-lie   (known finding) the same after the store denied an existing meta.json (read fault mode n)
 //   sample-invented    a served sample is not an original one
 //   sample-twice       after a finished cycle a sample is served by more than one block
 //   no-termination     Compact() exceeded its budget of bucket operations (e.g. re-planning the same block for ever)
 //   compact-error      Compact() failed without a crash (halt / retry error)  [only counted when overlaps are allowed]
 //   mark-without-live-cover   a block was marked for deletion while no unmarked block held all its sources
+//   delete-unmarked-block     the meta.json of a complete block without deletion mark is deleted (e.g. by the partial-upload cleaner)
 //   marked-left-behind after cycle 3 a block marked for deletion is still in the bucket
 
 func init() {
@@ -81,6 +86,10 @@ var errInjected = errors.New("verif: injected object store failure")
 //   t:<k>          the k-th mutating call (upload or delete) of the cycle fails once
 //   d:<n>          uploads of block data (every object that is not a *.json: chunks/…, index) fail, the first n of them (0 = all, for good)
 //   b:<bytes>:<n>  uploads of objects larger than <bytes> fail, the first n of them (0 = all, for good)
+//   g:<mode>:<k>   READ fault: the k-th Get of a *.json object (meta.json, deletion / no-compact marks) of a compactor
+//                  process fails; mode e = the call returns an error, h = the call succeeds and the body breaks after half
+//                  of the object (connection reset), n = the store answers "not found" although the object exists
+//   o:<mode>:<j>:<n>  READ fault on one object: the first n Gets of the meta.json of the j-th source block fail that way
 type bucketFault struct {
 	kind   string
 	k      int
@@ -88,7 +97,12 @@ type bucketFault struct {
 	bytes  int64
 	failed int
 	fired  bool
+	mode   string
+	target string // object name for o:
+	reads  int    // json Gets seen by the current process (g:)
 }
+
+func (f *bucketFault) isRead() bool { return f != nil && (f.kind == "g" || f.kind == "o") }
 
 func parseFault(s string) (*bucketFault, bool) {
 	if s == "-" {
@@ -102,6 +116,13 @@ func parseFault(s string) (*bucketFault, bool) {
 	case f[0] == "d" && len(f) == 2:
 		n, err := strconv.Atoi(f[1])
 		return &bucketFault{kind: "d", n: n}, err == nil && n >= 0
+	case f[0] == "g" && len(f) == 3 && (f[1] == "e" || f[1] == "h" || f[1] == "n"):
+		k, err := strconv.Atoi(f[2])
+		return &bucketFault{kind: "g", mode: f[1], k: k}, err == nil && k > 0
+	case f[0] == "o" && len(f) == 4 && (f[1] == "e" || f[1] == "h" || f[1] == "n"):
+		j, err1 := strconv.Atoi(f[2])
+		n, err2 := strconv.Atoi(f[3])
+		return &bucketFault{kind: "o", mode: f[1], k: j, n: n}, err1 == nil && err2 == nil && j > 0 && n > 0
 	case f[0] == "b" && len(f) == 3:
 		by, err1 := strconv.ParseInt(f[1], 10, 64)
 		n, err2 := strconv.Atoi(f[2])
@@ -120,6 +141,7 @@ type crashBucket struct {
 	crashed bool
 	overrun bool
 	onMut   func(kind, name string)
+	onFault  func()
 	fault    *bucketFault // shared across restarts: an outage does not end because the compactor restarted
 	attempts int // mutating calls attempted (failed ones included)
 	maxTries int // bound on the injected failures one scenario may run into
@@ -232,7 +254,78 @@ func (b *crashBucket) Get(ctx context.Context, name string) (io.ReadCloser, erro
 	if err := b.gate(); err != nil {
 		return nil, err
 	}
+	if mode := b.readFault(name); mode != "" {
+		switch mode {
+		case "e":
+			return nil, errInjected
+		case "n":
+			return b.Bucket.Get(ctx, name+".verif-no-such-object") // the bucket's own not-found error
+		case "h":
+			rc, err := b.Bucket.Get(ctx, name)
+			if err != nil {
+				return nil, err
+			}
+			data, err := io.ReadAll(rc)
+			rc.Close()
+			if err != nil {
+				return nil, err
+			}
+			return &brokenBody{data: data[:len(data)/2]}, nil
+		}
+	}
 	return b.Bucket.Get(ctx, name)
+}
+
+// brokenBody delivers the first part of an object and then a transport error.
+type brokenBody struct {
+	data []byte
+	off  int
+}
+
+func (r *brokenBody) Read(p []byte) (int, error) {
+	if r.off >= len(r.data) {
+		return 0, errors.New("verif: read tcp: connection reset by peer")
+	}
+	n := copy(p, r.data[r.off:])
+	r.off += n
+	return n, nil
+}
+
+func (r *brokenBody) Close() error { return nil }
+
+// readFault decides whether this Get is hit by the read fault; returns the mode or "".
+func (b *crashBucket) readFault(name string) string {
+	b.mu.Lock()
+	f := b.fault
+	if !f.isRead() || !strings.HasSuffix(name, ".json") {
+		b.mu.Unlock()
+		return ""
+	}
+	hit := false
+	switch f.kind {
+	case "g":
+		f.reads++
+		if !f.fired && f.reads == f.k {
+			f.fired, hit = true, true
+			f.target = name
+		}
+	case "o":
+		if name == f.target && f.failed < f.n {
+			hit = true
+		}
+	}
+	if hit {
+		f.failed++
+	}
+	cb := b.onFault
+	b.mu.Unlock()
+	if hit {
+		if cb != nil {
+			cb()
+		}
+		return f.mode
+	}
+	return ""
 }
 
 func (b *crashBucket) GetRange(ctx context.Context, name string, off, length int64) (io.ReadCloser, error) {
@@ -476,7 +569,34 @@ func joinPlusKeep(ids []uint64) string {
 }
 
 // newCompactor wires a compactor the way cmd/thanos/compact.go does (the filters relevant here).
-func (e *c29Env) newCompactor(bkt objstore.Bucket) (*compact.BucketCompactor, error) {
+// compactorProc is one compactor process (everything in memory is new after a restart).
+type compactorProc struct {
+	bc  *compact.BucketCompactor
+	sy  *compact.Syncer
+	ign *block.IgnoreDeletionMarkFilter
+	bkt objstore.Bucket
+	cnt prometheus.Counter
+}
+
+// cleanPartialMarked mirrors the closure of that name in cmd/thanos/compact.go.
+func (p *compactorProc) cleanPartialMarked(ctx context.Context) {
+	compact.BestEffortCleanAbortedPartialUploads(ctx, log.NewNopLogger(), p.sy.Partial(), p.bkt, p.cnt, p.cnt, p.cnt, p.ign.DeletionMarkBlocks())
+}
+
+// mainFn mirrors compactMainFn of cmd/thanos/compact.go with downsampling disabled and no retention:
+// compactor.Compact, sy.SyncMetas ("sync before retention"), cleanPartialMarked.
+func (p *compactorProc) mainFn(ctx context.Context) error {
+	if err := p.bc.Compact(ctx); err != nil {
+		return err
+	}
+	if err := p.sy.SyncMetas(ctx); err != nil {
+		return err
+	}
+	p.cleanPartialMarked(ctx)
+	return nil
+}
+
+func (e *c29Env) newCompactor(bkt objstore.Bucket) (*compactorProc, error) {
 	logger := log.NewNopLogger()
 	ins := objstore.WithNoopInstr(bkt)
 	deleteDelay := time.Duration(e.dd) * time.Second
@@ -504,23 +624,38 @@ func (e *c29Env) newCompactor(bkt objstore.Bucket) (*compact.BucketCompactor, er
 	}
 	grouper := compact.NewDefaultGrouper(logger, bkt, false, e.vertical, prometheus.NewRegistry(), cnt, cnt, cnt, metadata.NoneFunc, 1, 1)
 	cleaner := compact.NewBlocksCleaner(logger, bkt, ign, deleteDelay, cnt, cnt)
-	return compact.NewBucketCompactor(logger, sy, grouper, planner, comp, filepath.Join(e.dir, "compact"), bkt, 1, false, cleaner)
+	bc, err := compact.NewBucketCompactor(logger, sy, grouper, planner, comp, filepath.Join(e.dir, "compact"), bkt, 1, false, cleaner)
+	if err != nil {
+		return nil, err
+	}
+	return &compactorProc{bc: bc, sy: sy, ign: ign, bkt: bkt, cnt: cnt}, nil
 }
 
-// runCompact runs one Compact() of a fresh compactor behind a crash wrapper; returns the wrapper and the error.
-func (e *c29Env) runCompact(crashAt int) (*crashBucket, error) {
+// runCompact runs one iteration (compactMainFn) of a fresh compactor process behind the fault wrapper; returns the wrapper
+// and the error.  tickFirst: before the main function, the process' two background goroutines get their turn once — the
+// progress calculation syncs the metas and the cleanup tick runs cleanPartialMarked (cmd/thanos/compact.go starts all three
+// at the same time).
+func (e *c29Env) runCompact(crashAt int, tickFirst bool) (*crashBucket, error) {
 	cb := &crashBucket{Bucket: e.raw, crashAt: crashAt, budget: 80, onMut: e.onMut, fault: e.fault}
+	cb.onFault = func() { e.events = append(e.events, "r") }
+	if e.fault != nil {
+		e.fault.reads = 0
+	}
 	timeout := 60 * time.Second
 	if e.fault != nil {
 		cb.maxTries, timeout = 12, 30*time.Second // a compactor that keeps retrying against an outage is cut short
 	}
-	bc, err := e.newCompactor(cb)
+	proc, err := e.newCompactor(cb)
 	if err != nil {
 		return cb, err
 	}
 	ctx, cancel := context.WithTimeout(e.ctx, timeout)
 	defer cancel()
-	return cb, bc.Compact(ctx)
+	if tickFirst {
+		_ = proc.sy.SyncMetas(ctx) // a failed sync is only logged by the progress goroutine
+		proc.cleanPartialMarked(ctx)
+	}
+	return cb, proc.mainFn(ctx)
 }
 
 func (e *c29Env) shiftMarks(d int64) error {
@@ -626,6 +761,10 @@ func (e *c29Env) checkServed(stage string, finished bool) string {
 	}
 	for k := range e.original {
 		if count[k] == 0 {
+			if e.fault != nil && e.fault.isRead() && e.fault.mode == "n" && e.fault.failed > 0 && strings.HasSuffix(e.faultTarget(), metadata.MetaFilename) {
+				e.c.Violation("sample-lost-after-notfound-lie", fmt.Sprintf("%s: the object store answered \"not found\" for the existing %s of a 72 h old block; the block was taken for an aborted upload and deleted; sample series %d t=%d is served by no block", stage, e.faultTarget(), k.series, k.t))
+				return "lost-after-lie"
+			}
 			e.c.Violation("sample-lost", fmt.Sprintf("%s: original sample series %d t=%d is served by no block (%d blocks visible)", stage, k.series, k.t, len(metas)))
 			return "lost"
 		}
@@ -639,6 +778,14 @@ func (e *c29Env) checkServed(stage string, finished bool) string {
 		}
 	}
 	return "ok"
+}
+
+// faultTarget: the object the read fault hit (for g: faults the name is recorded when the fault fires).
+func (e *c29Env) faultTarget() string {
+	if e.fault == nil {
+		return ""
+	}
+	return e.fault.target
 }
 
 func parseC29Blocks(s string) ([]c29Block, bool) {
@@ -726,11 +873,23 @@ func runC29(c *hlib.Ctx, ranges []int64, vertical bool, dd int64, blocks []c29Bl
 		e.maxULID = id
 		e.events = append(e.events, "s")
 	}
+	// the source blocks have been in the bucket for three days: older than the 48 h threshold of the partial-upload cleaner
+	for name := range e.raw.Objects() {
+		if err := e.raw.ChangeLastModified(name, time.Now().Add(-72*time.Hour)); err != nil {
+			return "err:" + err.Error()
+		}
+	}
+	if fault != nil && fault.kind == "o" {
+		if fault.k > len(ids) {
+			return "bad-op"
+		}
+		fault.target = path.Join(ids[fault.k-1].String(), metadata.MetaFilename)
+	}
 	time.Sleep(2 * time.Millisecond)
 	var status []string
 	overlapsRefused := false
 	stage := func(name string, crashAt int, finishedIfOK bool) (n int, crashed bool, stop bool) {
-		cb, err := e.runCompact(crashAt)
+		cb, err := e.runCompact(crashAt, fault.isRead() && name == "c1")
 		n = cb.mutOps
 		switch {
 		case cb.overrun:
@@ -855,6 +1014,10 @@ func checkEventsCover(c *hlib.Ctx, events []string) {
 			b.marked = true
 		case strings.HasPrefix(ev, "-"):
 			id, _ := strconv.ParseUint(ev[1:], 10, 64)
+			if b := blocks[id]; b != nil && !b.marked {
+				c.Violation("delete-unmarked-block", fmt.Sprintf("event #%d %s: a complete block that was never marked for deletion is deleted", i+1, ev))
+				return
+			}
 			delete(blocks, id)
 		}
 	}
@@ -1033,6 +1196,55 @@ func genC29(c *hlib.Ctx) {
 			_, ev := parseC29Answer(out)
 			if ev != "" && ev != "-" {
 				c.Do(fmt.Sprintf("cp.valid %d %s", dd, ev), true)
+			}
+		}
+		// READ faults on meta.json / marker reads, on blocks older than the partial-upload threshold, in the full iteration
+		// order (progress sync + cleanup tick, then compactMainFn): call error, body cut in the middle, "not found" lie
+		if c.Tier != "quick" || i%3 == 2 || i == 0 {
+			var rf []string
+			nb := len(sc.blocks)
+			js := []int{1, nb}
+			if c.Tier != "quick" {
+				js = nil
+				for j := 1; j <= nb; j++ {
+					js = append(js, j)
+				}
+			}
+			for _, j := range js {
+				for _, cnt := range []int{1, 2, 3} {
+					if c.Tier == "quick" && cnt == 2 {
+						continue
+					}
+					rf = append(rf, fmt.Sprintf("o:h:%d:%d", j, cnt))
+				}
+				rf = append(rf, fmt.Sprintf("o:e:%d:2", j))
+			}
+			rf = append(rf, fmt.Sprintf("o:n:%d:1", 1+r.Intn(nb)))
+			maxK := 6 * nb
+			if c.Tier == "quick" {
+				for t := 0; t < 3; t++ {
+					rf = append(rf, fmt.Sprintf("g:%s:%d", []string{"h", "e", "h"}[t], 1+r.Intn(maxK)))
+				}
+			} else {
+				for k := 1; k <= maxK; k++ {
+					rf = append(rf, fmt.Sprintf("g:h:%d", k))
+					if k%3 == 0 {
+						rf = append(rf, fmt.Sprintf("g:e:%d", k), fmt.Sprintf("g:n:%d", k))
+					}
+				}
+			}
+			for _, f := range rf {
+				out := c.Do(sc.faultOp(dd, f), true)
+				c.Count("read-fault-run:" + f[:3])
+				_, ev := parseC29Answer(out)
+				if strings.Contains(f, ":n:") {
+					// a store that denies an existing meta.json: the block is indistinguishable from an aborted upload
+					// (known finding sample-lost-after-notfound-lie); its history is not a history of the model
+					continue
+				}
+				if ev != "" && ev != "-" {
+					c.Do(fmt.Sprintf("cp.valid %d %s", dd, ev), true)
+				}
 			}
 		}
 		// nested crashes (thorough): a second crash during the recovery
